@@ -1,5 +1,5 @@
 Require Import ZArith List. Require Extraction. Require Import ExtrOcamlBasic.
-Require Import IW.Lib.CInt IW.Lib.Vnum IW.KV.Keys IW.KV.Node IW.KV.Cursor IW.KV.Inst IW.KV.Skip IW.Gen.Facts.
+Require Import IW.Lib.CInt IW.Lib.Vnum IW.KV.Keys IW.KV.Node IW.KV.Cursor IW.KV.Inst IW.KV.CopyReads IW.KV.Skip IW.Gen.Facts.
 Extraction "m.ml" Z.add Z.mul Z.sub Z.div_eucl Z.compare Z.of_nat Z.to_nat Z.opp
   db_empty db_put db_get db_del db_copen db_cto db_cread db_cset db_cdel cur_get cur_del with_curs
-  api_key node_keys flat eff_key cursor_at stored_size skip_lower cmp_of db_cmatch le_encode le_decode.
+  api_key node_keys flat eff_key cursor_at stored_size skip_lower cmp_of db_cmatch le_encode le_decode db_ccopyval db_ccopykey.
